@@ -98,7 +98,7 @@ static sqf::runtime::runtime::result execute_do(sqf::runtime::runtime& runtime, 
 
         auto instruction = frame.current();
         if (runtime.configuration().max_runtime != std::chrono::milliseconds::zero() &&
-            runtime.configuration().max_runtime + runtime.runtime_timestamp() < std::chrono::system_clock::now())
+            runtime.configuration().max_runtime + runtime.run_timestamp() < std::chrono::system_clock::now())
         {
 #ifdef DF__SQF_RUNTIME__ASSEMBLY_DEBUG_ON_EXECUTE
             std::cout << "\x1B[33m[ASSEMBLY ASSERT]\033[0m" <<
@@ -294,6 +294,7 @@ sqf::runtime::runtime::result sqf::runtime::runtime::execute(sqf::runtime::runti
             SQFVM_VERIF_HOOK(failpoint, *this, "acquired");
             m_is_exit_requested = false;
             m_is_halt_requested = false;
+            m_run_timestamp = std::chrono::system_clock::now();
             auto scopeNum = m_context_active->frames_size() - 1;
             m_state = state::running;
             while (!m_is_exit_requested && !m_is_halt_requested && !m_contexts.empty())
@@ -350,6 +351,7 @@ sqf::runtime::runtime::result sqf::runtime::runtime::execute(sqf::runtime::runti
             SQFVM_VERIF_HOOK(failpoint, *this, "acquired");
             m_is_exit_requested = false;
             m_is_halt_requested = false;
+            m_run_timestamp = std::chrono::system_clock::now();
             m_state = state::running;
             while (!m_contexts.empty())
             {
@@ -451,6 +453,7 @@ sqf::runtime::runtime::result sqf::runtime::runtime::execute(sqf::runtime::runti
             SQFVM_VERIF_HOOK(failpoint, *this, "acquired");
             m_is_exit_requested = false;
             m_is_halt_requested = false;
+            m_run_timestamp = std::chrono::system_clock::now();
             m_state = state::running;
             res = execute_do(*this, 1);
             switch (res)
@@ -493,6 +496,7 @@ sqf::runtime::runtime::result sqf::runtime::runtime::execute(sqf::runtime::runti
             SQFVM_VERIF_HOOK(failpoint, *this, "acquired");
             m_is_exit_requested = false;
             m_is_halt_requested = false;
+            m_run_timestamp = std::chrono::system_clock::now();
             bool success;
             m_state = state::running;
             std::optional<diagnostics::diag_info> dinf;
